@@ -12,12 +12,14 @@ observable through the host function out(...), uses come after the declarations 
 Excluded construct (known finding C02/with-outer, see known/C02.txt): a `with` statement whose body
 (including nested functions) references a renamable binding that is declared outside the innermost
 function containing that `with`.  Generators never reference an outer local from inside a with body.
+Two more excluded constructs (known findings): a loop body block that re-declares the loop variable's name
+and refers to that name before the inner declaration (C02/tdz); `var` inside a class static block (C02/static-var).
 """
 
 # the order in which the minifier hands out names is private to it; these are all names of length 1
 ONE = list('abcdefghijklmnopqrstuvwxyzABCDEFGHIJKLMNOPQRSTUVWXYZ_$')
 FIRST = list('etnsoiarcldu')                       # a guess at the first ones, used as preferred free names
-TWO = ['ee', 'te', 'ne', 'et', 'tt', 'nt', 'do', 'if', 'in', 'of', 'as', 'is', 'no', 'on', 'to', 'at', 'or']
+TWO = ['ee', 'te', 'ne', 'et', 'tt', 'nt', 'of', 'as', 'is', 'no', 'on', 'to', 'at', 'or', 'dn', 'io', 'ie']   # valid identifiers only
 
 
 # ------------------------------------------------------------------------------------------------
@@ -266,7 +268,7 @@ def class_scopes(rnd):
         'function f(%(a)s){var %(b)s=class %(c)s{static p=%(a)s;q=%(a)s+"q";static who(){return %(c)s.p}};out(%(b)s.who(),new %(b)s().q,typeof %(c)s,typeof %(g)s)}f("A");',
         'function f(%(a)s){let %(b)s={%(a)s,%(c)s:%(a)s,[%(a)s]:1,m(%(d)s){return %(d)s+%(a)s},get g(){return %(a)s},set s(%(d)s){out(%(d)s,%(a)s)}};%(b)s.s="S";out(%(b)s.%(a)s,%(b)s.%(c)s,%(b)s.m("M"),%(b)s.g,Object.keys(%(b)s))}f("A");',
         'function f(){let {%(a)s,%(b)s:%(c)s,...%(d)s}={%(a)s:1,%(b)s:2,z:3};out(%(a)s,%(c)s,%(d)s);({%(a)s,%(b)s:%(c)s}={%(a)s:4,%(b)s:5});out(%(a)s,%(c)s,typeof %(g)s)}f();',
-        'function f(%(a)s){class %(b)s{static{var %(c)s=%(a)s+"s";let %(d)s=%(c)s;out(%(c)s,%(d)s)}}out(typeof %(c)s,typeof %(g)s)}f("A");',
+        'function f(%(a)s){class %(b)s{static{let %(c)s=%(a)s+"s";let %(d)s=%(c)s;out(%(c)s,%(d)s)}}out(typeof %(c)s,typeof %(g)s)}f("A");',   # no `var` in a static block: known finding C02/static-var
     ]
     return rnd.choice(forms) % dict(a=a, b=b, c=c, d=d, g=g)
 
@@ -416,13 +418,18 @@ class _Gen:
         if k == 'switch':
             return 'switch(1){case 1:%s}' % self.scope(depth, False, set(), no_var)
         v = r.choice(POOL)
-        if k == 'for':
-            inner = self.scope(depth, False, set(), no_var | {v})
-            self.n += 1
-            return 'for(let %s=%s;out.k!==%d;out.k=%d){out(%s);%s}' % (v, self.val(v), self.n, self.n, v, inner)
-        if k == 'forof':
-            inner = self.scope(depth, False, set(), no_var | {v})
-            return 'for(const %s of [%s]){out(%s);%s}' % (v, self.val(v), v, inner)
+        if k in ('for', 'forof'):
+            # the body block may declare the loop variable's name again (a separate scope in ECMAScript), but then
+            # nothing refers to that name before the inner declaration (temporal dead zone; known finding C02/tdz)
+            if r.random() < 0.3:
+                head = 'let %s=%s;out(%s);' % (v, self.val(v), v)
+            else:
+                head = 'out(%s);' % v
+            inner = head + self.scope(depth, False, {v}, no_var | {v})
+            if k == 'for':
+                self.n += 1
+                return 'for(let %s=%s;out.k!==%d;out.k=%d){%s}' % (v, self.val(v), self.n, self.n, inner)
+            return 'for(const %s of [%s]){%s}' % (v, self.val(v), inner)
         inner = self.scope(depth, False, {v}, no_var | {v})
         return 'try{throw %s}catch(%s){out(%s);%s}' % (self.val(v), v, v, inner)
 
